@@ -52,6 +52,11 @@ type (
 		Name      string
 		Val, Body Expr
 	}
+	ELit struct { // composite literal T{f: e, ...}
+		Type   string
+		Names  []string
+		Values []Expr
+	}
 )
 
 type Clause struct {
@@ -88,6 +93,11 @@ type LoopSpec struct {
 	Unroll    int      // >0: execute the loop concretely up to N iterations with an unwinding assertion
 }
 
+type WitnessSpec struct {
+	Name string
+	E    Expr
+}
+
 type ParamSpec struct { // contract of an opaque function-valued parameter
 	Name     string
 	Modifies []Expr
@@ -106,6 +116,7 @@ type FuncSpec struct {
 	Loops    map[int]*LoopSpec
 	Unfolds  []Expr
 	Applies  []Expr // lemma applications at function entry
+	Witness  []WitnessSpec // ghost results: name = expression over locals evaluated at return (existential for callers)
 	Inline   bool
 	Trusted  bool
 	Pure     bool
@@ -456,6 +467,23 @@ func (p *parser) postfix(e Expr) Expr {
 				panic("field name expected")
 			}
 			e = &ESel{X: e, Name: n.s}
+		case p.isOp("{") && isTypeName(e):
+			p.p++
+			lit := &ELit{Type: typeNameOf(e)}
+			for !p.isOp("}") {
+				n := p.next()
+				if n.k != "id" {
+					panic("field name expected in composite literal")
+				}
+				p.expectOp(":")
+				lit.Names = append(lit.Names, n.s)
+				lit.Values = append(lit.Values, p.expr(0))
+				if p.isOp(",") {
+					p.p++
+				}
+			}
+			p.expectOp("}")
+			e = lit
 		default:
 			return e
 		}
@@ -468,7 +496,7 @@ var clauseKW = map[string]bool{
 	"spec": true, "func": true, "lemma": true, "guarded": true,
 	"requires": true, "ensures": true, "modifies": true, "ghost": true, "loop": true,
 	"invariant": true, "decreases": true, "unfold": true, "inline": true, "trusted": true,
-	"pure": true, "atomic": true, "param": true, "induction": true, "havoc": true, "nopanic": true, "unroll": true, "known-finding": true, "apply": true, "assert": true,
+	"pure": true, "atomic": true, "param": true, "induction": true, "havoc": true, "nopanic": true, "unroll": true, "known-finding": true, "apply": true, "assert": true, "witness": true,
 }
 
 type rawClause struct {
@@ -683,6 +711,20 @@ func ParseContractFile(path string, src []byte, ps *PkgSpec) error {
 			if !found {
 				return fmt.Errorf("%s:%d: known-finding: no ensures clause labelled %q", path, rc.line, label)
 			}
+		case "witness":
+			// witness f = idxPre, l = idxPost
+			if cur == nil {
+				return fmt.Errorf("%s:%d: witness outside func", path, rc.line)
+			}
+			kv := strings.SplitN(rc.text, "=", 2)
+			if len(kv) != 2 {
+				return fmt.Errorf("%s:%d: witness name = expression", path, rc.line)
+			}
+			we, err := ParseExpr(kv[1])
+			if err != nil {
+				return fmt.Errorf("%s:%d: %v", path, rc.line, err)
+			}
+			cur.Witness = append(cur.Witness, WitnessSpec{strings.TrimSpace(kv[0]), we})
 		case "apply":
 			es, err := exprList(rc)
 			if err != nil {
@@ -920,4 +962,26 @@ func LoadSpecDir(dir string) (*PkgSpec, error) {
 		f.Trusted = true
 	}
 	return ps, nil
+}
+
+func isTypeName(e Expr) bool {
+	switch n := e.(type) {
+	case *EIdent:
+		return len(n.Name) > 0 && n.Name[0] >= 'A' && n.Name[0] <= 'Z'
+	case *ESel:
+		if id, ok := n.X.(*EIdent); ok {
+			return len(n.Name) > 0 && n.Name[0] >= 'A' && n.Name[0] <= 'Z' && len(id.Name) > 0 && id.Name[0] >= 'a' && id.Name[0] <= 'z'
+		}
+	}
+	return false
+}
+
+func typeNameOf(e Expr) string {
+	switch n := e.(type) {
+	case *EIdent:
+		return n.Name
+	case *ESel:
+		return n.X.(*EIdent).Name + "." + n.Name
+	}
+	return ""
 }
